@@ -8,6 +8,7 @@ per postcondition clause / invariant clause / callee precondition / implicit-exc
 from __future__ import annotations
 
 import ast
+import os
 from fractions import Fraction
 
 import z3
@@ -26,6 +27,7 @@ from .values import (
     Int,
     IntMap,
     ModuleRef,
+    NoneT,
     Opaque,
     PyDict,
     PyList,
@@ -33,9 +35,11 @@ from .values import (
     Real,
     Same,
     Seq,
+    SliceVal,
     UFun,
     Unsupported,
     VCError,
+    _Scalar,
     fresh,
     frac_of_float,
     is_conc_num,
@@ -66,6 +70,9 @@ class LoopSpec:
         self.shapes = dict(shapes or {})  # havoc shapes for variables whose shape cannot be inferred
         self.modifies = list(modifies)
         self.unroll = unroll
+
+
+FRAME_CHECK = os.environ.get("VERIF_FRAME", "1") == "1"
 
 
 class Contract:
@@ -278,6 +285,7 @@ class State:
         self.env = env if env is not None else {}
         self.pc = pc if pc is not None else []
         self.forks = []  # (kind, State, payload) produced inside expression evaluation
+        self.dead = False  # set when the path diverges (process exit)
         self.roots = {}  # extra named roots kept alive across clones (params, old, ...)
         self.trace = []  # branch decisions, for path ids
 
@@ -434,6 +442,9 @@ class Exec:
 
     def verify(self, qual):
         """Generate all obligations of the function `qual` against its contract."""
+        from .values import reset_uids
+
+        reset_uids()  # symbol names depend on the function only, not on what was verified before (solver behaviour is name-sensitive)
         c = self.reg.contracts[qual]
         vname = qual
         qual = c.qual
@@ -453,6 +464,7 @@ class Exec:
         self.input_syms = params
         old = _clone(params, {})
         st.roots["old"] = old
+        st.roots["params0"] = dict(params)  # the parameter objects themselves (the names may be rebound by the body)
         st.roots["module"] = mod.name
         # preconditions are assumed
         E = SpecEnv(st.env, old=None)
@@ -473,9 +485,19 @@ class Exec:
                 result = payload if kind == "return" else None
                 Eo = SpecEnv(s.env, old=s.roots["old"], result=result)
                 self.spec_ctx(s)
+                # the declared result type is part of the contract: a number where a number is promised, None where None is
+                # (a path that falls off the end of a function declared to return a status would otherwise satisfy every
+                # clause of the form `result == ...` vacuously)
+                rs = getattr(c, "returns", None)
+                if isinstance(rs, _Scalar) and rs.sort in ("Int", "Real") and not (is_real_valued(result) or is_int_valued(result) or isinstance(result, bool)) or isinstance(rs, NoneT) and result is not None:
+                    self.prove(s, f"{short(vname)}/returns/result-has-the-declared-type", z3.BoolVal(False), "ensures", node.lineno)
+                elif isinstance(rs, (_Scalar, NoneT)):
+                    self.prove(s, f"{short(vname)}/returns/result-has-the-declared-type", z3.BoolVal(True), "ensures", node.lineno)
                 for ename, fn in c.ensures:
                     goal = self._spec_bool(fn(Eo), f"ensures {ename}")
                     self.prove(s, f"{short(vname)}/ensures/{ename}", goal, "ensures", node.lineno)
+                if FRAME_CHECK and not c.options.get("no_frame_check"):
+                    self._check_frame(c, s, vname, node)
                 # canary: the end of this path must be reachable ("ensures False" must be refuted)
                 self.obls.append(Obl(f"{short(vname)}/canary", list(s.pc), None, "cover", qual, node.lineno, pathid(s)))
             elif kind == "raise":
@@ -492,7 +514,7 @@ class Exec:
                     self.prove(s, f"{short(vname)}/raises/no-{exc}", z3.BoolVal(False), "raises", node.lineno)
             else:
                 raise VCError(f"{qual}: '{kind}' escapes the function body")
-        if nret == 0 and not c.raises:
+        if nret == 0 and not c.raises and not c.exc_ensures:
             raise VCError(f"{qual}: no normally terminating path (contradictory contract?)")
         self.npaths += len(outs)
         for o in self.obls[n0:]:
@@ -634,7 +656,8 @@ class Exec:
         res = m(stmt, st, mod)
         for kind, s, payload in res:
             self._drain(s, outs)
-            outs.append((kind, s, payload))
+            if not getattr(s, "dead", False):
+                outs.append((kind, s, payload))
         self._drain(st, outs)
         return outs
 
@@ -807,6 +830,15 @@ class Exec:
 
     def stmt_For(self, stmt, st, mod):
         return self._loop(stmt, st, mod, kind="for")
+
+    def stmt_With(self, stmt, st, mod):
+        """`with open(...) as f:` style blocks: the context expression is evaluated, bound, and the body executed
+        (context-manager protocol itself is not modelled: file objects are opaque)"""
+        for item in stmt.items:
+            v = self.eval(item.context_expr, st, mod)
+            if item.optional_vars is not None:
+                self.assign(item.optional_vars, v, st, mod)
+        return self.exec_block(stmt.body, st, mod)
 
     def stmt_Try(self, stmt, st, mod):
         if stmt.finalbody or stmt.orelse:
@@ -1219,6 +1251,41 @@ class Exec:
         raise Unsupported(f"unpack of {type(v).__name__}")
 
     def store(self, o, idx, v, st, node):
+        if isinstance(o, PyList) and isinstance(idx, tuple) and len(idx) == 2:
+            if not (o.is_conc() and all(isinstance(r, PyList) for r in o.v)):
+                raise Unsupported("two-index store into a value that is not a 2-D array")
+            a, b = idx
+            if isinstance(a, SliceVal) and a.full() and not isinstance(b, SliceVal):  # a[:, j] = column
+                col = v if isinstance(v, PyList) else None
+                if col is None or col.length() != len(o.v):
+                    raise Unsupported("column store: value is not a vector of the right length")
+                for k, r in enumerate(o.v):
+                    self.store(r, b, col.get(k), st, node)
+                return
+            if not isinstance(a, SliceVal):
+                row = self.load(o, a, st, node)
+                return self.store(row, b, v, st, node)
+            raise Unsupported("2-D store of this form")
+        if isinstance(o, PyList) and isinstance(idx, SliceVal):
+            # a[lo:hi] = vector / scalar (numpy: in place, same length)
+            n = o.length()
+            lo = 0 if idx.lo is None else idx.lo
+            hi = n if idx.hi is None else idx.hi
+            if not (isinstance(lo, int) and isinstance(hi, int) and isinstance(n, int) and o.is_conc()):
+                raise Unsupported("slice store with symbolic bounds")
+            lo, hi = (lo + n if lo < 0 else lo), (hi + n if hi < 0 else hi)
+            if isinstance(v, PyList):
+                if v.length() != hi - lo:
+                    self.safety(st, "index-store", False, node)
+                    return
+                for k in range(lo, hi):
+                    o.v[k] = v.get(k - lo)
+            elif is_scalar(v):
+                for k in range(lo, hi):
+                    o.v[k] = v
+            else:
+                raise Unsupported("slice store of this value")
+            return
         if isinstance(o, PyList):
             n = o.length()
             if isinstance(idx, int) and o.is_conc():
@@ -1443,6 +1510,11 @@ class Exec:
                 r = a is b
             elif isinstance(a, EnumVal) or isinstance(b, EnumVal):
                 return self.compare(ast.Eq() if isinstance(op, ast.Is) else ast.NotEq(), a, b, st, node)
+            elif isinstance(a, Builtin) and isinstance(b, Builtin):
+                r = a.name == b.name
+            elif isinstance(b, bool) and (isinstance(a, bool) or (is_z3(a) and z3.is_bool(a))):
+                # `x is True` / `x is False` with x a bool: the two bool singletons are compared by value
+                return self.compare(ast.Eq() if isinstance(op, ast.Is) else ast.NotEq(), a, b, st, node)
             else:
                 raise Unsupported("`is` on scalars")
             return r if isinstance(op, ast.Is) else not r
@@ -1539,6 +1611,8 @@ class Exec:
             return x in container.d
         elif isinstance(container, IntMap):
             return container.dom(to_z3(x))
+        elif isinstance(container, Opaque) and container.kind == "json":
+            return z3.Bool(uid("json_has"))
         else:
             raise Unsupported(f"`in` on {type(container).__name__}")
         rs = [self.equals(x, y) for y in items]
@@ -1673,7 +1747,29 @@ class Exec:
         idx = self.eval(node.slice, st, mod)
         return self.load(o, idx, st, node)
 
+    def expr_Slice(self, node, st, mod):
+        if node.step is not None:
+            raise Unsupported("slice step")
+        return SliceVal(self.eval(node.lower, st, mod) if node.lower is not None else None, self.eval(node.upper, st, mod) if node.upper is not None else None)
+
     def load(self, o, idx, st, node):
+        if isinstance(o, PyList) and isinstance(idx, tuple) and len(idx) == 2:
+            # two-dimensional numpy array = list of rows (concrete number of rows)
+            if not (o.is_conc() and all(isinstance(r, PyList) for r in o.v)):
+                raise Unsupported("two-index subscript of a value that is not a 2-D array")
+            a, b = idx
+            if isinstance(a, SliceVal):
+                if not a.full():
+                    raise Unsupported("row slice of a 2-D array")
+                if isinstance(b, SliceVal):  # a[:, lo:hi]: numpy gives a view; the engine gives a copy (listed: the tool only reads through such views)
+                    self.used_models.add("numpy 2-D slice a[:, lo:hi] as a copy (views are only read in the verified code)")
+                    out = PyList([libmodels.do_slice(self, st, r, b.lo, b.hi, node) for r in o.v], np=True)
+                    return out
+                return PyList([self.load(r, b, st, node) for r in o.v], np=True)
+            row = self.load(o, a, st, node)
+            if isinstance(b, SliceVal):
+                return libmodels.do_slice(self, st, row, b.lo, b.hi, node)
+            return self.load(row, b, st, node)
         if isinstance(o, (PyList,)):
             n = o.length()
             i = self.norm_index(idx, n, st, node)
@@ -1705,6 +1801,8 @@ class Exec:
             return o.val(k)
         if isinstance(o, UFun) and "getitem" in o.attrs:
             return o.attrs["getitem"](idx)
+        if isinstance(o, Opaque) and o.kind == "json":
+            return Opaque("json", {})
         raise Unsupported(f"subscript of {type(o).__name__}")
 
     def expr_Attribute(self, node, st, mod):
@@ -1772,19 +1870,32 @@ class Exec:
         m, c = cls.split(":")
         return self.prog.resolve_method(m, c, attr)
 
-    def enum_member(self, cref, attr):
+    def enum_members(self, cref):
+        """[(name, value)] of an Enum / IntEnum class of the repository (explicit integer values and auto()), else None; second item: is it an IntEnum"""
         m = self.prog.module(cref.module)
         cd = m.classes.get(cref.name)
         if cd is None:
-            return None
-        if not any(isinstance(b, ast.Name) and b.id == "Enum" for b in cd.bases):
-            return None
-        k = 0
+            return None, False
+        bases = [b.id for b in cd.bases if isinstance(b, ast.Name)]
+        if "Enum" not in bases and "IntEnum" not in bases:
+            return None, False
+        out, last = [], 0
         for s in cd.body:
             if isinstance(s, ast.Assign) and isinstance(s.targets[0], ast.Name):
-                k += 1
-                if s.targets[0].id == attr:
-                    return EnumVal(cref.name, attr, k)
+                if isinstance(s.value, ast.Constant) and isinstance(s.value.value, int):
+                    last = s.value.value
+                else:
+                    last = last + 1
+                out.append((s.targets[0].id, last))
+        return out, "IntEnum" in bases
+
+    def enum_member(self, cref, attr):
+        members, is_int = self.enum_members(cref)
+        if members is None:
+            return None
+        for name, val in members:
+            if name == attr:
+                return val if is_int else EnumVal(cref.name, attr, val)
         return None
 
     def expr_Lambda(self, node, st, mod):
@@ -1831,6 +1942,10 @@ class Exec:
         if name in mod.assigns:
             st = State()
             return self.eval(mod.assigns[name], st, mod)
+        if name == "__name__":
+            return mod.name
+        if name == "__file__":
+            return Opaque("path", {"id": z3.Int(uid("path"))})
         if name in libmodels.BUILTINS:
             return Builtin(name)
         if name in ("ValueError", "TypeError", "KeyError", "IndexError", "Exception", "RuntimeError", "ZeroDivisionError"):
@@ -2080,6 +2195,142 @@ class Exec:
             st.env[f"_g_{short(c.qual).split('.')[-1]}_{k}"] = ghost[0] if len(ghost) == 1 else ghost
             result = result[0] if nreal == 1 else result[:nreal]
         return result
+
+    # ---------------------------------------------------------------- frame condition of the verified body
+    def _check_frame(self, c, s, vname, node):
+        """Everything reachable from the parameters at entry is, at a normal exit, either a location named in `assigns`
+        or unchanged.  One obligation per exit path (always emitted, so that its name is stable)."""
+        cur_root, old_root = s.roots.get("params0"), s.roots.get("old")
+        if cur_root is None or old_root is None:
+            return
+        assigned = set()
+        for path_fn, _shape in c.assigns:
+            try:
+                tgt = path_fn(SpecEnvRaw(cur_root))
+            except (KeyError, AttributeError, VCError, TypeError):
+                continue
+            if isinstance(tgt, tuple):
+                assigned.add((id(tgt[0]), tgt[1]))
+            else:
+                assigned.add((id(tgt), None))
+        goals, notes, seen = [], [], set()
+
+        def bad(path, why):
+            goals.append(z3.BoolVal(False))
+            notes.append(f"{path}: {why}")
+
+        def scalar_eq(nv, ov, path):
+            if nv is ov:
+                return
+            if is_z3(nv) or is_z3(ov):
+                a, b = to_z3(nv), to_z3(ov)
+                if a.eq(b):
+                    return
+                if a.sort() != b.sort():
+                    if z3.is_bool(a) or z3.is_bool(b):
+                        return bad(path, "changed type")
+                    a, b = to_real(a), to_real(b)
+                goals.append(a == b)
+                notes.append(path)
+            elif isinstance(nv, (int, float, Fraction, bool, str)) or nv is None or isinstance(nv, EnumVal):
+                if not (type(nv) is type(ov) and nv == ov) and not (is_conc_num(nv) and is_conc_num(ov) and nv == ov):
+                    bad(path, f"changed from {ov!r} to {nv!r}")
+            elif nv is not ov and not (isinstance(nv, (FuncRef, ClassRef, Builtin, ModuleRef)) and repr(nv) == repr(ov)):
+                if isinstance(nv, (Closure, BoundMethod, UFun, Seq, Inf)) or isinstance(ov, (Closure, BoundMethod, UFun, Seq, Inf)):
+                    if type(nv) is not type(ov):
+                        bad(path, "rebound")
+                else:
+                    bad(path, "rebound to another value")
+
+        def walk(nv, ov, path, depth=0):
+            if depth > 12:
+                return
+            if isinstance(ov, PyObj):
+                if not isinstance(nv, PyObj) or nv.cls != ov.cls:
+                    return bad(path, "rebound to another object")
+                if id(nv) in seen:
+                    return
+                seen.add(id(nv))
+                if (id(nv), "*") in assigned:
+                    return
+                for k, o_f in ov.fields.items():
+                    if (id(nv), k) in assigned:
+                        continue
+                    if k not in nv.fields:
+                        bad(f"{path}.{k}", "deleted")
+                        continue
+                    walk(nv.fields[k], o_f, f"{path}.{k}", depth + 1)
+                for k in nv.fields:
+                    if k not in ov.fields and (id(nv), k) not in assigned:
+                        bad(f"{path}.{k}", "attribute written but not named in assigns")
+            elif isinstance(ov, PyList):
+                if not isinstance(nv, PyList):
+                    return bad(path, "rebound to a non-list")
+                if (id(nv), None) in assigned or nv.v is ov.v or id(nv) in seen:
+                    return
+                seen.add(id(nv))
+                if isinstance(nv.v, list) and isinstance(ov.v, list):
+                    if len(nv.v) != len(ov.v):
+                        return bad(path, f"length changed from {len(ov.v)} to {len(nv.v)}")
+                    for k, (a, b) in enumerate(zip(nv.v, ov.v)):
+                        walk(a, b, f"{path}[{k}]", depth + 1)
+                    return
+                n_len, o_len = nv.length(), ov.length()
+                k = z3.Int(uid("frk"))
+                try:
+                    a, b = nv.get(k), ov.get(k)
+                except (VCError, Unsupported, IndexError, TypeError):
+                    return bad(path, "list changed (elements not comparable)")
+                if is_scalar(a) and is_scalar(b):
+                    ea, eb = to_z3(a), to_z3(b)
+                    if ea.sort() != eb.sort():
+                        ea, eb = to_real(ea), to_real(eb)
+                    goals.append(z3.And(to_z3(n_len) == to_z3(o_len), z3.ForAll([k], z3.Implies(z3.And(0 <= k, k < to_z3(o_len)), ea == eb))))
+                    notes.append(path)
+                else:
+                    goals.append(to_z3(n_len) == to_z3(o_len))
+                    notes.append(path + " (length only: elements are not scalars)")
+            elif isinstance(ov, IntMap):
+                if not isinstance(nv, IntMap):
+                    return bad(path, "rebound to a non-map")
+                if (id(nv), None) in assigned or (nv.dom is ov.dom and nv.val is ov.val and nv.n is ov.n):
+                    return
+                k = z3.Int(uid("frk"))
+                try:
+                    va, vb = nv.val(k), ov.val(k)
+                    same_val = to_z3(va) == to_z3(vb) if is_scalar(va) and is_scalar(vb) else z3.BoolVal(True)
+                    goals.append(z3.And(to_z3(nv.n) == to_z3(ov.n), z3.ForAll([k], z3.And(nv.dom(k) == ov.dom(k), z3.Implies(ov.dom(k), same_val)))))
+                    notes.append(path)
+                except (VCError, Unsupported, TypeError):
+                    bad(path, "map changed")
+            elif isinstance(ov, PyDict):
+                if not isinstance(nv, PyDict):
+                    return bad(path, "rebound to a non-dict")
+                if (id(nv), None) in assigned:
+                    return
+                if list(nv.d.keys()) != list(ov.d.keys()):
+                    return bad(path, "keys changed")
+                for k in ov.d:
+                    walk(nv.d[k], ov.d[k], f"{path}[{k!r}]", depth + 1)
+            elif isinstance(ov, Opaque):
+                if not isinstance(nv, Opaque) or nv.kind != ov.kind:
+                    return bad(path, "rebound")
+                for k in ov.attrs:
+                    if k in nv.attrs:
+                        walk(nv.attrs[k], ov.attrs[k], f"{path}.{k}", depth + 1)
+            elif isinstance(ov, tuple):
+                if not isinstance(nv, tuple) or len(nv) != len(ov):
+                    return bad(path, "rebound")
+                for k, (a, b) in enumerate(zip(nv, ov)):
+                    walk(a, b, f"{path}[{k}]", depth + 1)
+            else:
+                scalar_eq(nv, ov, path)
+
+        for pname, ov in old_root.items():
+            if isinstance(ov, (PyObj, PyList, IntMap, PyDict, Opaque)) and pname in cur_root:
+                walk(cur_root[pname], ov, pname)
+        goal = z3.And(*goals) if goals else z3.BoolVal(True)
+        self.prove(s, f"{short(vname)}/frame/only-declared-locations-change", goal, "frame", node.lineno, extra={"frame_locations": notes[:40]})
 
     def _apply_frame(self, c, env, st):
         wf = []
